@@ -73,6 +73,11 @@ def _join_attachment(ns_soap_env, href_id, envelope, payload, prefix=True,
     :param  parser:   the parser to read the envelope with
     """
 
+    # the email package hands the root part over as text; lxml does not read
+    # text that starts with an xml declaration naming an encoding.
+    if isinstance(envelope, six.text_type):
+        envelope = envelope.encode('utf8')
+
     # grab the XML element of the message in the SOAP body
     try:
         soaptree = etree.fromstring(envelope, parser)
